@@ -34,6 +34,20 @@ def describe(case):
                           order=cfg.get('order'))
 
 
+def unproject(v):
+    """A spec value as a Python value (arguments of curried entry points)."""
+    k = v[0]
+    if k == 'i':
+        return v[1]
+    if k == 's':
+        return ''.join(chr(c) for c in v[1])
+    if k == 'none':
+        return None
+    if k == 'l':
+        return [unproject(x) for x in v[1]]
+    raise ValueError(v)
+
+
 def observe_case(case):
     """Build the grammar of `case` with the real code and observe every run."""
     cfg = case.get('cfg') or {}
@@ -58,7 +72,10 @@ def observe_case(case):
             obs.append(['timeout', 'not run: three runs of this grammar already timed out'])
             continue
         try:
-            if entry == start and not cfg.get('via_rule', False):
+            if isinstance(entry, list):
+                # curried entry point of a parameterised class: C.parse(values...)(text, pos, fullparse)
+                fn = getattr(mod, entry[0]).parse(*[unproject(v) for v in entry[1]])
+            elif entry == start and not cfg.get('via_rule', False):
                 fn = mod.parse
             else:
                 fn = getattr(mod, entry).parse
